@@ -40,6 +40,28 @@ func rangeIndexLoops(fn *ssa.Function) []sliceLoop {
 		if !ok || cmp.Op != token.LSS {
 			continue
 		}
+		// classic form: for i := 0; i < len(coll); i++  -  i = phi(0, i+1), cond i < len(coll)
+		if ph0, isPhi := cmp.X.(*ssa.Phi); isPhi && ph0.Block() == h {
+			starts0, steps := false, false
+			for _, e := range ph0.Edges {
+				if k, ok := constInt(e); ok && k == 0 {
+					starts0 = true
+				} else if bo, ok := e.(*ssa.BinOp); ok && bo.Op == token.ADD && bo.X == ssa.Value(ph0) && isOne(bo.Y) {
+					steps = true
+				} else {
+					starts0 = false
+					break
+				}
+			}
+			if starts0 && steps {
+				if call, ok := cmp.Y.(*ssa.Call); ok {
+					if b, ok := call.Call.Value.(*ssa.Builtin); ok && b.Name() == "len" {
+						out = append(out, sliceLoop{loop: l, index: ph0, coll: call.Call.Args[0]})
+					}
+				}
+			}
+			continue
+		}
 		inc, ok := cmp.X.(*ssa.BinOp)
 		if !ok || inc.Op != token.ADD || !isOne(inc.Y) {
 			continue
@@ -219,30 +241,43 @@ func ruleC06_1(c *Ctx) {
 		}
 		// (c) Keys append
 		var keyAppends []*ssa.Store
-		allInstrs(fn, func(in ssa.Instruction) {
-			if st, ok := in.(*ssa.Store); ok {
-				if fa, ok := st.Addr.(*ssa.FieldAddr); ok && fieldVar(fa.X.Type(), fa.Field) == keysF && strip(fa.X) == ssa.Value(resp) {
-					keyAppends = append(keyAppends, st)
+		okKeys := true
+		// (the append may sit in a helper such as resp.addKey(key): it is looked at under this function's call site)
+		p.virtualInstrs(fn, func(in ssa.Instruction) {
+			st, ok := in.(*ssa.Store)
+			if !ok {
+				return
+			}
+			fa, ok := st.Addr.(*ssa.FieldAddr)
+			if !ok || fieldVar(fa.X.Type(), fa.Field) != keysF || strip(fa.X) != ssa.Value(resp) {
+				return
+			}
+			keyAppends = append(keyAppends, st)
+			call, isCall := st.Val.(*ssa.Call)
+			if !isCall || len(call.Call.Args) != 2 {
+				okKeys = false
+				return
+			}
+			_, base := fieldLoad(call.Call.Args[0], keysF)
+			els := varargElems(call.Call.Args[1])
+			at := lift(in, fn)
+			if at == nil {
+				at = in
+			}
+			if !(base && len(els) == 1 && strip(els[0]) == keySeg && loop.Blocks[at.Block()]) {
+				okKeys = false
+			}
+			if at != in && !onEveryPath(in) {
+				okKeys = false
+			}
+			// on every path of the iteration that reaches the back edge
+			for _, pr := range loop.Header.Preds {
+				if loop.Blocks[pr] && !at.Block().Dominates(pr) {
+					okKeys = false
 				}
 			}
 		})
-		okKeys := len(keyAppends) == 1
-		if okKeys {
-			st := keyAppends[0]
-			call, isCall := st.Val.(*ssa.Call)
-			okKeys = isCall && len(call.Call.Args) == 2
-			if okKeys {
-				_, base := fieldLoad(call.Call.Args[0], keysF)
-				els := varargElems(call.Call.Args[1])
-				okKeys = base && len(els) == 1 && els[0] == keySeg && loop.Blocks[st.Block()]
-				// on every path of the iteration that reaches the back edge
-				for _, pr := range loop.Header.Preds {
-					if loop.Blocks[pr] && !st.Block().Dominates(pr) {
-						okKeys = false
-					}
-				}
-			}
-		}
+		okKeys = okKeys && len(keyAppends) == 1
 		pos := p.pos(fn.Pos())
 		if len(keyAppends) > 0 {
 			pos = c.at(keyAppends[0])
@@ -272,8 +307,8 @@ func ruleC06_1(c *Ctx) {
 		}
 		for _, w := range ups {
 			// key = Hash(keySeg)
-			hc, isH := p.isCallTo(strip(w.Key), hash)
-			okKey := isH && hc.Call.Args[0] == keySeg
+			hc, isH := p.isCallTo(through(w.Key), hash)
+			okKey := isH && strip(hc.Call.Args[0]) == keySeg
 			c.check(okKey, tag+": group key is Hash(key)", c.at(w.Instr), "slot of the iteration's key", "a key is filed under "+expr(w.Key)+", which is not the slot of that key")
 			var elem ssa.Value
 			kind := ""
@@ -359,26 +394,51 @@ func canReachWithin(a, b ssa.Instruction, l *Loop) bool {
 
 // emitted returns, per block, the tokens appended to field f of any object in that block, in order.
 type token_ struct {
-	kind string // byte, lit, itoa, crlf, val
-	text string
-	v    ssa.Value
-	at   ssa.Instruction
+	kind  string // byte, lit, itoa, crlf, val
+	text  string
+	v     ssa.Value
+	lenOf ssa.Value // itoa(len(x)): x, resolved where the token was created (inside a helper: with the call's arguments)
+	at    ssa.Instruction
 }
 
 func (c *Ctx) emissions(fn *ssa.Function, f *types.Var) map[*ssa.BasicBlock][]token_ {
 	out := map[*ssa.BasicBlock][]token_{}
+	isSelf := func(v ssa.Value) bool { _, self := fieldLoad(v, f); return self }
 	for _, b := range fn.Blocks {
 		for _, in := range b.Instrs {
-			st, ok := in.(*ssa.Store)
-			if !ok {
-				continue
+			switch x := in.(type) {
+			case *ssa.Store:
+				fa, ok := x.Addr.(*ssa.FieldAddr)
+				if !ok || fieldVar(fa.X.Type(), fa.Field) != f {
+					continue
+				}
+				out[b] = append(out[b], c.tokensOf(x.Val, isSelf, in, 0)...)
+			case *ssa.Call:
+				// a helper that appends to the same field of an object it is given (`frag.appendBulk(s)`): its tokens,
+				// in its own order, take the place of the call
+				h := x.Call.StaticCallee()
+				if h == nil || !c.P.isHelper(h) || len(h.Blocks) != 1 {
+					continue
+				}
+				var ts []token_
+				withBinding(h, x.Call.Args, func() {
+					for _, hin := range h.Blocks[0].Instrs {
+						st, ok := hin.(*ssa.Store)
+						if !ok {
+							continue
+						}
+						fa, ok := st.Addr.(*ssa.FieldAddr)
+						if !ok || fieldVar(fa.X.Type(), fa.Field) != f {
+							continue
+						}
+						for _, t := range c.tokensOf(st.Val, isSelf, in, 1) {
+							t.at = in
+							ts = append(ts, t)
+						}
+					}
+				})
+				out[b] = append(out[b], ts...)
 			}
-			fa, ok := st.Addr.(*ssa.FieldAddr)
-			if !ok || fieldVar(fa.X.Type(), fa.Field) != f {
-				continue
-			}
-			isSelf := func(v ssa.Value) bool { _, self := fieldLoad(v, f); return self }
-			out[b] = append(out[b], c.tokensOf(st.Val, isSelf, in, 0)...)
 		}
 	}
 	return out
@@ -402,6 +462,16 @@ func (c *Ctx) tokensOf(v ssa.Value, isSelf func(ssa.Value) bool, at ssa.Instruct
 			return []token_{{kind: "other", text: expr(v), at: at}}
 		}
 		return append(c.tokensOf(call.Call.Args[0], isSelf, at, depth), tokenize(call.Call.Args[1], at)...)
+	}
+	// strconv.AppendInt(dst, int64(x), 10) is append(dst, strconv.Itoa(x)...)
+	if staticCalleeName(&call.Call) == "strconv.AppendInt" && len(call.Call.Args) == 3 {
+		if base, ok := constInt(call.Call.Args[2]); ok && base == 10 {
+			x := strip(call.Call.Args[1])
+			if cv, ok := x.(*ssa.Convert); ok {
+				x = strip(cv.X)
+			}
+			return append(c.tokensOf(call.Call.Args[0], isSelf, at, depth), itoaToken(x, at))
+		}
 	}
 	// helper: result is its first parameter with things appended
 	h := call.Call.StaticCallee()
@@ -435,7 +505,7 @@ func tokenize(a ssa.Value, at ssa.Instruction) []token_ {
 	}
 	sa := strip(a)
 	if cl, ok := sa.(*ssa.Call); ok && staticCalleeName(&cl.Call) == "strconv.Itoa" {
-		return []token_{{kind: "itoa", text: expr(cl.Call.Args[0]), v: cl.Call.Args[0], at: at}}
+		return []token_{itoaToken(cl.Call.Args[0], at)}
 	}
 	if ld, ok := sa.(*ssa.UnOp); ok {
 		if g, ok := ld.X.(*ssa.Global); ok && g.Name() == "LFCRByte" {
@@ -443,6 +513,16 @@ func tokenize(a ssa.Value, at ssa.Instruction) []token_ {
 		}
 	}
 	return []token_{{kind: "val", text: expr(sa), v: sa, at: at}}
+}
+
+func itoaToken(x ssa.Value, at ssa.Instruction) token_ {
+	t := token_{kind: "itoa", text: expr(x), v: x, at: at}
+	if lc, ok := strip(x).(*ssa.Call); ok && len(lc.Call.Args) == 1 {
+		if b, ok := lc.Call.Value.(*ssa.Builtin); ok && b.Name() == "len" {
+			t.lenOf = strip(lc.Call.Args[0])
+		}
+	}
+	return t
 }
 
 func tokString(ts []token_) string {
@@ -482,9 +562,14 @@ func ruleC06_2(c *Ctx) {
 		if fn == nil || f == nil {
 			continue
 		}
-		c.examined(len(fn.Blocks))
 		tag := "CRespCodec." + spec.fn
 		resp := fn.Params[1]
+		// a wrapper that hands the work to a shared helper (MGet/Del → splitByKeys(resp, literal)) is analysed in the helper
+		if h, r := p.delegateOf(fn, resp); h != fn && r != nil {
+			fn, resp = h, r
+			delete(paramBind, r) // the request parameter itself stays symbolic
+		}
+		c.examined(len(fn.Blocks))
 		// outer loop: range resp.<field>
 		var next *ssa.Next
 		allInstrs(fn, func(in ssa.Instruction) {
@@ -569,8 +654,44 @@ func ruleC06_2(c *Ctx) {
 				}
 			}
 			if pairLoop == nil {
-				c.bad(tag+": pair loop", c.at(next), "no loop over both elements {key, value} of each pair was found")
-				continue
+				// unrolled: the body of the element loop encodes group[i][0] and then group[i][1]
+				pairElem := func(v ssa.Value, k int64) bool {
+					ld, ok := strip(v).(*ssa.UnOp)
+					if !ok || ld.Op != token.MUL {
+						return false
+					}
+					in2, ok := ld.X.(*ssa.IndexAddr)
+					if !ok {
+						return false
+					}
+					if kk, isK := constInt(in2.Index); !isK || kk != k {
+						return false
+					}
+					in1, ok := in2.X.(*ssa.IndexAddr)
+					return ok && in1.Index == elemLoop.index && strip(in1.X) == strip(elemLoop.coll)
+				}
+				var ub *ssa.BasicBlock
+				for b := range elemLoop.loop.Blocks {
+					if len(em[b]) > 0 {
+						ub = b
+					}
+				}
+				okU := ub != nil && len(em[ub]) == 10
+				if okU {
+					for k := int64(0); k < 2; k++ {
+						ts := em[ub][k*5 : k*5+5]
+						okU = okU && ts[0].kind == "byte" && ts[0].text == "$" && ts[1].kind == "itoa" && ts[2].kind == "crlf" && ts[3].kind == "val" && ts[4].kind == "crlf" &&
+							pairElem(ts[3].v, k) && ts[1].lenOf != nil && pairElem(ts[1].lenOf, k)
+					}
+				}
+				if !okU {
+					c.bad(tag+": pair loop", c.at(next), "no loop over both elements {key, value} of each pair was found (and the body does not encode pair[0] then pair[1])")
+					continue
+				}
+				c.ok(tag+": pair loop", c.at(next), "both elements of each pair, in order (unrolled)")
+				c.ok(tag+": element encoding", c.at(em[ub][0].at), "'$' itoa(len(v)) CRLF v CRLF for pair[0] and pair[1]")
+				bodyBlock = ub
+				goto afterElem
 			}
 			c.ok(tag+": pair loop", c.at(next), "both elements of each pair, in order")
 			elem = pairLoop.isElem
@@ -591,21 +712,16 @@ func ruleC06_2(c *Ctx) {
 			c.bad(tag+": element encoding", c.at(next), "nothing is appended to Frag.Req per element")
 			continue
 		}
-		ts := em[bodyBlock]
-		okEl := len(ts) == 5 && ts[0].kind == "byte" && ts[0].text == "$" && ts[1].kind == "itoa" && ts[2].kind == "crlf" && ts[3].kind == "val" && ts[4].kind == "crlf"
-		if okEl {
-			okEl = elem(ts[3].v)
-			if lc, ok := ts[1].v.(*ssa.Call); ok && len(lc.Call.Args) == 1 {
-				okEl = okEl && elem(lc.Call.Args[0])
-				if b, ok := lc.Call.Value.(*ssa.Builtin); !ok || b.Name() != "len" {
-					okEl = false
-				}
-			} else {
-				okEl = false
+		{
+			ts := em[bodyBlock]
+			okEl := len(ts) == 5 && ts[0].kind == "byte" && ts[0].text == "$" && ts[1].kind == "itoa" && ts[2].kind == "crlf" && ts[3].kind == "val" && ts[4].kind == "crlf"
+			if okEl {
+				okEl = elem(ts[3].v) && ts[1].lenOf != nil && elem(ts[1].lenOf)
 			}
+			c.check(okEl, tag+": element encoding", c.at(ts[0].at), "'$' itoa(len(v)) CRLF v CRLF with v the element",
+				"an element is encoded as "+tokString(ts)+" instead of '$' itoa(len(v)) CRLF v CRLF for the loop's element v: the length prefix and the bytes disagree")
 		}
-		c.check(okEl, tag+": element encoding", c.at(ts[0].at), "'$' itoa(len(v)) CRLF v CRLF with v the element",
-			"an element is encoded as "+tokString(ts)+" instead of '$' itoa(len(v)) CRLF v CRLF for the loop's element v: the length prefix and the bytes disagree")
+	afterElem:
 		// nothing else is appended elsewhere
 		extra := 0
 		for b, t := range em {
